@@ -50,8 +50,38 @@ def strategy(tier):
             "reset_at": st.one_of(st.none(), st.integers(0, 20)),
             "extra_resets": st.integers(0, 2),
             "deferred": st.booleans(),
+            "attach_after": st.one_of(st.just(0), st.just(0), st.integers(1, 6)),
+            "reversed_machine_nodes": st.booleans(),
         }
     )
+
+
+def fixed_cases(tier):
+    """One machine with more than 255 operations (counters must not wrap)."""
+    n = 260
+    return [
+        {
+            "inst": {
+                "durations": [[1 + j % 3] if j % 20 else [2, 1] for j in range(n)],
+                "machines": [[[0]] if j % 20 else [[0], [1]] for j in range(n)],
+                "name": "wide",
+                "meta": {},
+                "ints": True,
+                "family": "fixed",
+            },
+            "builder": b,
+            "flags": [True, True],
+            "filters": None,
+            "pre_observer": None,
+            "history": [[(7 * k) % 5, 0] for k in range(40)],
+            "reset_at": None,
+            "extra_resets": 0,
+            "deferred": False,
+            "attach_after": 0,
+            "reversed_machine_nodes": False,
+        }
+        for b in (["agent_task"] if tier == "quick" else ["agent_task", "complete_agent_task"])
+    ]
 
 
 def check_case(case, ctx):
@@ -61,8 +91,36 @@ def check_case(case, ctx):
     if case["pre_observer"]:
         obs.make_feature_observer(d, ["is_completed", case["pre_observer"], 0])
     graph = obs.BUILDERS[case["builder"]](instance)
+    if case.get("reversed_machine_nodes") and case["builder"] == "agent_task":
+        # the same graph composed from the public building blocks with the
+        # machine nodes added in reverse order
+        from job_shop_lib.graphs import (
+            JobShopGraph,
+            Node,
+            NodeType,
+            add_machine_machine_edges,
+            add_operation_machine_edges,
+            add_same_job_operations_edges,
+        )
+
+        graph = JobShopGraph(instance)
+        for x in reversed(range(instance.num_machines)):
+            graph.add_node(Node(node_type=NodeType.MACHINE, machine_id=x))
+        add_operation_machine_edges(graph)
+        add_machine_machine_edges(graph)
+        add_same_job_operations_edges(graph)
+        ctx.label("custom_node_order")
     flags = case["flags"]
     deferred = bool(case.get("deferred"))
+    attach_after = min(case.get("attach_after", 0), ref(inst).n_ops - 1) if case["reset_at"] is None else 0
+    pre_model = ref(inst)
+    for k in range(attach_after):
+        # the episode is already under way when the updater is attached
+        avail = pre_model.available(case["filters"])
+        j, p = avail[k % len(avail)]
+        x = inst["machines"][j][p][0]
+        d.dispatch(instance.jobs[j][p], x)
+        pre_model.apply(j, x)
     upd = ResidualGraphUpdater(
         d,
         graph,
@@ -81,11 +139,11 @@ def check_case(case, ctx):
     pos = 0
     episodes = (2 + case.get("extra_resets", 0)) if case["reset_at"] is not None else 1
     for ep in range(episodes):
-        m = ref(inst)
+        m = ref(inst) if not (ep == 0 and attach_after) else pre_model
         prev_removed = None
         n = m.n_ops
         limit = n if ep == episodes - 1 else min(case["reset_at"], n)
-        for k in range(limit):
+        for k in range(m.count(), limit):
             a, b = history[pos] if pos < len(history) else (0, 0)
             pos += 1
             avail = m.available(case["filters"])
@@ -145,7 +203,10 @@ def check_case(case, ctx):
             if scheduled - completed:
                 lag = True
             ctx.count("steps")
-        if m.complete() and flags == [True, True] and all_used:
+        # (an updater attached while the episode is under way never sees the
+        # jobs / machines that were finished before - also on the unchanged
+        # tree - so the completion clause presupposes attachment from the start)
+        if m.complete() and flags == [True, True] and all_used and not (ep == 0 and attach_after):
             g = upd.job_shop_graph
             ctx.check(
                 all(g.removed_nodes) and g.graph.number_of_nodes() == 0,
